@@ -102,7 +102,7 @@ C_Call ==
 C_Ret ==
   /\ IsEv("Ret")
   /\ pc[Ev.m] \in RetPc
-  /\ Ev.res = (IF pc[Ev.m] \in {"r_ok", "r_rel"} THEN "ok" ELSE res[Ev.m])
+  /\ Ev.res = RetVal(Ev.m)
   /\ Return(Ev.m)
 
 C_Tick == /\ IsEv("Tick") /\ Settled
